@@ -133,7 +133,10 @@ def _gen(ctx):
                      timeout=2400, heap="12g").printed.get("SCRIPT", [])
         res["attack3"] = [h for h in hs if h.get("attack")]
         res["three"] = [h for h in hs if not h.get("attack")]
-    _par(_model_check_jobs(ctx, mc) + [g2, g3q if quick else g3t], n=3 if quick else 2)
+    # VERIF_C06_SKIP_MC=1 (development only, e.g. mutation testing): skip the model-checking runs,
+    # which do not depend on the code under test
+    mcjobs = [] if os.environ.get("VERIF_C06_SKIP_MC") == "1" else _model_check_jobs(ctx, mc)
+    _par(mcjobs + [g2, g3q if quick else g3t], n=3 if quick else 2)
     ctx.extra["model_checking"] = mc
     add("two", res["two"])
     if quick:
